@@ -17,22 +17,26 @@ RULE = ("cases = a short legitimate history (packets sent, packets received with
         "different kinds of which at least one carries a field >= 2^16; distinct by hash of the op list")
 TRUSTED_BASE = [
     "cost models coq/Model/{C04Handlers,C04Cid}.v count loop iterations / cells / frames by arithmetic on the field values; the handlers' "
-    "effects are the existing models (RcvdJournal, SentJournal, AckFrame, Frames, StreamCtl, Sid); equality with the Rust is checked by "
+    "effects are the existing models (RcvdJournal, SentJournal, AckFrame, Frames, StreamCtl, Sid, and for NEW_CONNECTION_ID the shared "
+    "RemoteCid model of C14 in the variant of the repaired code: active IDs counted after the frame is processed); equality with the Rust is checked by "
     "stream `handlers` (error kinds, frames emitted, controller loop iterations through a cfg(gmquic_verif) counter, cells added, "
     "collected numbers: exactly; allocated bytes/blocks measured by a counting global allocator: inside the band the cost predicts)",
     "the glue of qconnection/src/space.rs + space/{initial,handshake,data}.rs (Frame::Ack arm, Ack*Space::recv_frame) is replicated in "
-    "the harness; the ORDER of the three ACK consumers and the presence of the F7/F8 checks are extracted from the Rust source on every "
-    "run (tools/props/C04.py source_config, fail closed) and passed to harness and model as configuration",
+    "the harness; the ORDER of the three ACK consumers, the presence of the F7/F8 checks, the error kind of RETIRE_CONNECTION_ID for an "
+    "unissued number (F55) and the shape of RemoteCids::recv_new_cid_frame (insert, retire_prior_to, arrange, count) are extracted from the "
+    "Rust source on every run (tools/props/C04.py source_config, fail closed) and passed to harness and model as configuration",
     "the congestion controller's own state is not modelled here (C13): the number of packets it tracks is read from the implementation "
     "before every operation and given to the model as an input; theorems quantify over it",
-    "probes run in a forked child with RLIMIT_AS = 768 MiB and RLIMIT_CPU = 10 s; a child killed by a limit (or a `capacity overflow`) is the "
-    "observation `-5`, which the model must predict (value-driven cost > 2^21); the generator leaves the band 2^21..2^31 empty",
+    "probes run in a forked child with RLIMIT_AS = 320 MiB (what ends an unbounded handler, deterministically) and, as backstops below the "
+    "per-operation watchdog (raised to 60 s for this stream), RLIMIT_CPU = 15 s and a wall-clock alarm at 48 s; a child killed by a limit "
+    "(or a `capacity overflow`) is the observation `-5`, which the model must predict (value-driven cost > 2^21); the generator leaves the "
+    "band 2^17..2^27 empty (values up to 10^5 are expected to complete, values from 2^27 on to hit the limit)",
 ]
 MODELLED = ("qbase/src/frame/ack.rs iter + is_valid; qbase/src/frame/io.rs be_frame (Model.Frames); qcongestion/src/packets.rs on_ack_rcvd "
             "(loop count only); qrecovery/src/journal/rcvd.rs decode_pn/on_rcvd_pn/on_rcvd_ack/gen_ack_frame_util; sent.rs update_largest/"
             "on_packet_acked/resize; qconnection/src/space.rs Ack*Space::recv_frame + dispatcher order; qbase/src/util/index_deque.rs "
             "insert/drain_to/advance/reset_offset; qbase/src/cid/remote_cid.rs recv_new_cid_frame/retire_prior_to/arrange_idle_cid/"
-            "CidCell::assign (no path borrows its ID); local_cid.rs set_limit/recv_retire_cid_frame/issue_new_cid; qbase/src/sid/* and "
+            "CidCell::assign (Model/RemoteCid.v, shared with C14; no path of the harness borrows or retires its ID); local_cid.rs set_limit/recv_retire_cid_frame/issue_new_cid; qbase/src/sid/* and "
             "qrecovery/src/streams (whole DataStreams model of C11/C12) for stream frames. Not modelled: Initial/Handshake spaces "
             "(same code, other epoch index), CRYPTO frames, ECN counts, paths that borrow/renew connection IDs")
 ASSUMPTIONS = ["history is legitimate traffic (the generator's); probes leave the state untouched (they run in a child)",
@@ -48,11 +52,14 @@ MANIFEST = {
             "the implicit open of lower-numbered streams. Proved for the fixed code: an ACK computing a negative packet number is a "
             "FRAME_ENCODING_ERROR and reaches no handler; an ACK whose largest >= next unsent number is a PROTOCOL_VIOLATION and reaches no "
             "handler; every accepted ACK costs at most a linear function of the packets ever sent times the tracked window; limit violations "
-            "(MAX_STREAMS > 2^60, stream beyond the limit, NEW_CONNECTION_ID beyond the limit, RETIRE of an unissued number) give an error "
-            "with constant cost. REFUTED with vm_compute witnesses that replay on the real code: cost linear in a field VALUE for a packet "
-            "number jump (F9), NEW_CONNECTION_ID sequence / retire_prior_to (F10), active_connection_id_limit (F11); each with the bound "
-            "that does hold and a conditional theorem outside the class; RETIRE of an unissued number gets CONNECTION_ID_LIMIT_ERROR instead "
-            "of PROTOCOL_VIOLATION (F55). Models are run against the real handlers on the same inputs every check; allocation is measured.",
+            "(MAX_STREAMS > 2^60, stream beyond the limit, RETIRE of an unissued number = PROTOCOL_VIOLATION) give the prescribed error "
+            "with constant cost; NEW_CONNECTION_ID gets CONNECTION_ID_LIMIT_ERROR exactly when more than active_connection_id_limit IDs "
+            "are active after the frame is processed (shared RemoteCid model of the repaired code). REFUTED with witnesses that replay on "
+            "the real code: cost linear in a field VALUE for a packet number jump (F9), NEW_CONNECTION_ID sequence number / retire_prior_to "
+            "(F10: sequence - highest seen cells are gap-filled and retire_prior_to - highest used RETIRE frames queued before any limit is "
+            "looked at, even for frames that are then rejected), active_connection_id_limit (F11); each with the exact count, the bound "
+            "that does hold and a conditional theorem outside the class. Models are run against the real handlers on the same inputs "
+            "every check; allocation is measured.",
     "note": "Level partial: the controller's tracked-packet count is an input, the qconnection glue is replicated in the harness and tied "
             "by source-order extraction. Trusted: Coq kernel, extraction, OCaml driver, Rust harness (fork/rlimits, counting allocator, "
             "one cfg counter hook), Python generators/oracle.",
@@ -84,7 +91,9 @@ def _arm(src, start_pat):
 
 
 def source_config():
-    """-> (ord, f7, f8): order of the ACK consumers in the three dispatchers, presence of the parser check and of `>=`"""
+    """-> (ord, f7, f8, f55): order of the ACK consumers in the three dispatchers, presence of the parser check and of
+    `>=`, error kind of RETIRE_CONNECTION_ID for an unissued number; also checks (fail closed) that RemoteCids still
+    has the shape the shared model describes: insert, retire_prior_to, arrange_idle_cid, then the count of active IDs"""
     if "v" in _CFG:
         return _CFG["v"]
     repo = vlib.REPO
@@ -123,13 +132,34 @@ def source_config():
     else:
         vlib.log("[C04] sent.rs update_largest: comparison not recognised -> model uses the weaker `>`")
         f8 = 0
-    _CFG["v"] = (ords[0], f7, f8)
+    local = open(os.path.join(repo, "qbase/src/cid/local_cid.rs")).read()
+    rr = _arm(local, "fn recv_retire_cid_frame")
+    guard = rr.find("seq >= self.cid_deque.largest()")
+    mk = re.search(r"ErrorKind::(\w+)", rr[guard:]) if guard >= 0 else None
+    if mk is None:
+        raise RuntimeError("local_cid.rs recv_retire_cid_frame: the test `seq >= largest()` and its error kind were not found")
+    if mk.group(1) == "ProtocolViolation":
+        f55 = 1
+    else:
+        if mk.group(1) != "ConnectionIdLimit":
+            vlib.log("[C04] local_cid.rs recv_retire_cid_frame: error kind %s not recognised -> model uses CONNECTION_ID_LIMIT_ERROR" % mk.group(1))
+        f55 = 0
+    remote = open(os.path.join(repo, "qbase/src/cid/remote_cid.rs")).read()
+    rn = _arm(remote, "fn recv_new_cid_frame")
+    order = [rn.find(x) for x in ("seq < self.cid_deque.offset()", "self.cid_deque.insert(seq", "self.retire_prior_to(retire_prior_to)",
+                                  "self.arrange_idle_cid()", "self.active_cid_limit")]
+    # only the ORDER of the steps is required here (the comparison itself is checked by running it against the model)
+    if min(order) < 0 or order != sorted(order) or rn.count("ErrorKind::") != 1:
+        raise RuntimeError("remote_cid.rs recv_new_cid_frame is no longer `discard test, insert, retire_prior_to, arrange_idle_cid, "
+                           "count of the active IDs` (the variant no_pre/post_count of Model/RemoteCid.v): %s" % order)
+    _CFG["v"] = (ords[0], f7, f8, f55)
     return _CFG["v"]
 
 
 def regen():
-    o, f7, f8 = source_config()
-    vlib.log("[C04] source configuration: ACK validated before its consumers=%d  parser rejects negative pn=%d  update_largest uses >= : %d" % (o, f7, f8))
+    o, f7, f8, f55 = source_config()
+    vlib.log("[C04] source configuration: ACK validated before its consumers=%d  parser rejects negative pn=%d  update_largest uses >= : %d  "
+             "RETIRE of an unissued number is PROTOCOL_VIOLATION=%d  NEW_CONNECTION_ID limit = count of active IDs after processing" % (o, f7, f8, f55))
 
 
 # ---------------------------------------------------------------------------------------------
@@ -306,8 +336,9 @@ def gen_history(rng, cfg):
         ops.append((T_CELL, []))
         ncells += 1
     seen = 0
-    if rng.random() < 0.5 and limit >= 1:
-        for s in range(1, min(limit, 3) + 1):
+    if rng.random() < 0.5 and limit >= 2:
+        # a legitimate peer: the initial connection ID (sequence 0) is active, so at most limit - 1 more
+        for s in range(1, min(limit - 1, 3) + 1):
             if rng.random() < 0.8:
                 ops.append((T_FRAME, [newcid(s, 0, s)]))
                 seen = s
@@ -360,14 +391,15 @@ def gen_probe(rng, ref, kind=None):
         return (P_PN, [w, x])
     if kind == "newcid":
         lim, seen = ref["limit"], ref["seen"]
-        seq = pal(rng, (seen + 1, seen + 2, seen, seen + lim, seen + lim + 1, 1000000))
-        rpt = rng.choice([0, seq, seq, max(0, seq - 1), max(0, seq - lim), max(0, seq - lim - 1), min(seq, pal(rng))])
+        # the band 2^17 .. 2^31 stays empty (see TRUSTED_BASE): 100000 is the largest value expected to complete
+        seq = pal(rng, (seen + 1, seen + 2, seen, seen + lim, seen + lim - 1, seen + lim + 1, 100000))
+        rpt = rng.choice([0, 0, seq, seq, max(0, seq - 1), max(0, seq - lim), max(0, seq - lim + 1), max(0, seq - lim - 1), min(seq, pal(rng))])
         return (P_FRAME, [newcid(seq, min(rpt, seq), rng.randint(0, 200))])
     if kind == "retire":
         return (P_FRAME, [retire(pal(rng, (ref["issued"] - 1, ref["issued"], ref["issued"] + 1)))])
     if kind == "setlimit":
         # a huge limit keeps the real loop busy until the child's address-space limit: few of them
-        return (P_SETLIMIT, [pal(rng, (2, 3, 8, 200000, 100)) if rng.random() < 0.3 else rng.choice([0, 1, 2, 3, 4, 8, 100, 1 << 16])])
+        return (P_SETLIMIT, [pal(rng, (2, 3, 8, 100000, 100)) if rng.random() < 0.3 else rng.choice([0, 1, 2, 3, 4, 8, 100, 1 << 16])])
     if kind == "maxstreams":
         return (P_FRAME, [maxstreams(rng.randint(0, 1), pal(rng, ((1 << 60) - 1, 1 << 60, (1 << 60) + 1, 100)))])
     d = rng.randint(0, 1)
@@ -389,14 +421,14 @@ def gen_probe(rng, ref, kind=None):
 
 
 def cfg_words(rng):
-    o, f7, f8 = source_config()
-    return [o, rng.choice([2, 2, 3, 4, 8]), rng.choice([0, 1, 3, 3, 100, 1000]), rng.choice([0, 1, 3, 100]), f7, f8]
+    o, f7, f8, f55 = source_config()
+    return [o, rng.choice([2, 2, 3, 4, 8]), rng.choice([0, 1, 3, 3, 100, 1000]), rng.choice([0, 1, 3, 100]), f7, f8, f55]
 
 
 def gen(rng, tier):
     n = int(os.environ.get("C04_N", "0")) or (90 if tier == "quick" else 1500)
     cases = []
-    o, f7, f8 = source_config()
+    o, f7, f8, f55 = source_config()
     # exhaustive small scope: every ACK (largest, first) in 0..4 x 0..5 against 0..3 packets sent
     k = 0
     for nsent in range(0, 4):
@@ -404,19 +436,19 @@ def gen(rng, tier):
         for largest in range(0, 5):
             for first in range(0, 6):
                 ops.append((P_FRAME, [ack(largest, first)]))
-        cases.append(Case("small-ack-%d" % nsent, ops, [o, 2, 3, 3, f7, f8]))
+        cases.append(Case("small-ack-%d" % nsent, ops, [o, 2, 3, 3, f7, f8, f55]))
     for lim in (2, 3):
         ops = [(T_FRAME, [newcid(1, 0)])]
         for seq in range(0, 7):
             for rpt in range(0, seq + 1):
                 ops.append((P_FRAME, [newcid(seq, rpt)]))
-        cases.append(Case("small-newcid-%d" % lim, ops, [o, lim, 3, 3, f7, f8]))
+        cases.append(Case("small-newcid-%d" % lim, ops, [o, lim, 3, 3, f7, f8, f55]))
     ops = [(T_LSET, [3])]
     for seq in range(0, 6):
         ops.append((P_FRAME, [retire(seq)]))
     for nn in range(0, 6):
         ops.append((P_SETLIMIT, [nn]))
-    cases.append(Case("small-local", ops, [o, 2, 3, 3, f7, f8]))
+    cases.append(Case("small-local", ops, [o, 2, 3, 3, f7, f8, f55]))
     for i in range(n):
         cfg = cfg_words(rng)
         ops, ref = gen_history(rng, cfg)
@@ -426,11 +458,12 @@ def gen(rng, tier):
         k += 1
     # the heavy witnesses (also in the corpus); kept few: each one allocates tens of megabytes in a child
     heavy = [
-        Case("heavy-newcid", [(T_FRAME, [newcid(1, 0)]), (P_FRAME, [newcid(1000000, 1000000)]), (P_FRAME, [newcid(V62, V62 - 2)])], [o, 2, 3, 3, f7, f8]),
-        Case("heavy-setlimit", [(P_SETLIMIT, [200000]), (P_SETLIMIT, [V62])], [o, 2, 3, 3, f7, f8]),
-        Case("heavy-pn", [(T_RCVD, [0]), (T_RCVD, [1]), (P_PN, [4, 65536]), (P_PN, [4, (1 << 31) - 1])], [o, 2, 3, 3, f7, f8]),
-        Case("heavy-ack", [(T_SENT, [5]), (P_FRAME, [ack(V62, V62)]), (P_FRAME, [ack(1 << 16, 1 << 16)]), (P_FRAME, [ack(4, 4)])], [o, 2, 3, 3, f7, f8]),
-        Case("heavy-open", [(P_FRAME, [stream(4 * 999, 0)]), (P_FRAME, [stream(4 * 1001, 0)])], [o, 2, 1000, 3, f7, f8]),
+        Case("heavy-newcid", [(T_FRAME, [newcid(1, 0)]), (P_FRAME, [newcid(100000, 100000)]), (P_FRAME, [newcid(100000, 0)]),
+                              (P_FRAME, [newcid(V62, V62 - 2)]), (P_FRAME, [newcid(V62, 0)])], [o, 2, 3, 3, f7, f8, f55]),
+        Case("heavy-setlimit", [(P_SETLIMIT, [100000]), (P_SETLIMIT, [V62])], [o, 2, 3, 3, f7, f8, f55]),
+        Case("heavy-pn", [(T_RCVD, [0]), (T_RCVD, [1]), (P_PN, [4, 65536]), (P_PN, [4, (1 << 31) - 1])], [o, 2, 3, 3, f7, f8, f55]),
+        Case("heavy-ack", [(T_SENT, [5]), (P_FRAME, [ack(V62, V62)]), (P_FRAME, [ack(1 << 16, 1 << 16)]), (P_FRAME, [ack(4, 4)])], [o, 2, 3, 3, f7, f8, f55]),
+        Case("heavy-open", [(P_FRAME, [stream(4 * 999, 0)]), (P_FRAME, [stream(4 * 1001, 0)])], [o, 2, 1000, 3, f7, f8, f55]),
     ]
     return cases + heavy
 
@@ -439,7 +472,14 @@ def gen(rng, tier):
 # model inputs: measured allocation and the controller's packet count
 # ---------------------------------------------------------------------------------------------
 _OBS = {}
+_PRE_PROBLEMS = []
 MEASURED = (T_LSET, T_FRAME, P_FRAME, P_PN, P_SETLIMIT)
+
+# every probe is a fork(): on a loaded machine a child that needs 0.3 s of CPU can take several seconds of wall time. The
+# per-operation watchdog of the harness protocol is therefore raised for this stream (never lowered); the child's own CPU
+# budget (a quarter of it) and wall-clock alarm (80 %) stay below it, so a genuinely expensive handler is reported as `-5`
+# by the harness itself instead of tripping the watchdog.
+vlib.ENV["VERIF_CASE_TIMEOUT_MS"] = str(max(int(vlib.ENV.get("VERIF_CASE_TIMEOUT_MS", "5000") or 5000), 60000))
 
 
 def impl_obs(cases):
@@ -450,7 +490,8 @@ def impl_obs(cases):
         for c in need:
             uniq.setdefault(c.key(), c)
         batch = [Case("k%d" % i, c.ops, c.cfg) for i, c in enumerate(uniq.values())]
-        out, _ = vlib.run_binary([binp], batch, tag="c04-pre")
+        out, pr = vlib.run_binary([binp], batch, tag="c04-impl")
+        _PRE_PROBLEMS.extend(pr)
         for b, k in zip(batch, uniq.keys()):
             _OBS[k] = out.get(b.name, ["! missing"])
         if len(_OBS) > 200000:
@@ -481,42 +522,112 @@ def feed(cases):
 
 vlib.MODEL_INPUT_HOOKS["handlers"] = feed
 
+
+def impl_run(binp, cases, prof):
+    """the implementation is run ONCE per distinct case: the same observations are compared with the model and supply its
+    inputs (measured allocation, controller packet count)"""
+    return {c.name: o for c, o in zip(cases, impl_obs(cases))}, list(_PRE_PROBLEMS)
+
 # ---------------------------------------------------------------------------------------------
 # oracle: the property stated directly on the implementation's observations
 # ---------------------------------------------------------------------------------------------
 E_FRAME, E_TP, E_CIDLIMIT, E_PV, E_STREAMLIMIT = 7, 8, 9, 10, 4
+KIND_NAME = {0: "no error", 7: "FRAME_ENCODING_ERROR", 8: "TRANSPORT_PARAMETER_ERROR", 9: "CONNECTION_ID_LIMIT_ERROR",
+             10: "PROTOCOL_VIOLATION", 4: "STREAM_LIMIT_ERROR"}
 
 
 def bound_bytes(fb, state):
     return 2048 * (fb + state) + (1 << 17)
 
 
+def parse_obs(line):
+    """-> list of ints, or None when the line is not a list of integers"""
+    try:
+        return [int(x) for x in line.split()]
+    except ValueError:
+        return None
+
+
+def split_measured(v):
+    """observation of a measured operation = words… alloc_bytes alloc_blocks cc_len  -> (words, bytes, blocks) or None"""
+    if len(v) < 4:
+        return None
+    return v[:-3], v[-3], v[-2]
+
+
+# how many words each class of frame observation carries at least (class word included)
+FRAME_WORDS = {0: 2, 1: 5, 2: 3, 3: 3, 4: 4, 5: 4, 9: 1}
+
+
+def shape_problem(t, w):
+    """None, or why the words of a measured operation cannot be read (never index beyond what this accepted)"""
+    if not w:
+        return "empty observation"
+    if w[0] in (-5, -77):
+        return None
+    if t in (T_FRAME, P_FRAME):
+        need = FRAME_WORDS.get(w[0])
+        if need is None:
+            return "unknown frame class %d" % w[0]
+        if len(w) < need:
+            return "frame class %d with %d words, %d expected" % (w[0], len(w), need)
+        return None
+    if t == P_PN:
+        return None if len(w) >= 3 else "packet-number probe with %d words" % len(w)
+    return None if len(w) >= 2 else "set_limit with %d words" % len(w)
+
+
+def failed(t, w):
+    """did the implementation end the connection on this (in-process) operation?"""
+    if w[0] == -77:
+        return True
+    if w[0] == -5:
+        return False
+    if t in (T_FRAME, P_FRAME):
+        if w[0] == 0:
+            return True
+        if w[0] in (1, 2, 3, 4, 5):
+            return w[1] != 0
+        return False
+    if t in (T_LSET, P_SETLIMIT):
+        return w[0] not in (0, -3)
+    return False
+
+
 def oracle(case, obs):
     """None, or a message `Fxx: …` / `new: …`"""
     cfg = [int(x) for x in case.cfg]
+    if len(cfg) < 4:
+        return "new: case configuration %s too short" % cfg
     limit, msb, msu = cfg[1], cfg[2], cfg[3]
     nxt = 0            # next packet number we would send
     rcvd = set()
-    seen_hi = 0        # highest NEW_CONNECTION_ID sequence seen
-    roff = 0           # highest retire_prior_to honoured
+    have = {0}         # sequence numbers of the peer's connection IDs we store (the initial one is 0)
+    tomb = 0           # highest retire_prior_to honoured: everything below is retired
     cells = 1
     issued = 2
     lset = False
     created = [0, 0]
     closed = False
+    if len(obs) < len(case.ops):
+        return "new: %d observations for %d operations" % (len(obs), len(case.ops))
     for k, ((t, a), line) in enumerate(zip(case.ops, obs)):
         if line.startswith("!"):
             return "new: op %d: harness reported %s" % (k, line)
-        v = [int(x) for x in line.split()]
+        v = parse_obs(line)
+        if not v:
+            return "new: op %d: unreadable observation %r" % (k, line[:60])
         if closed:
             if v != [-1]:
-                return "new: op %d answered %s after the connection failed" % (k, v)
+                return "new: op %d answered %s after the connection failed" % (k, v[:6])
             continue
+        if v == [-1]:
+            return "new: op %d (%s) found the connection closed although no earlier operation failed" % (k, describe(t, a))
         if t == T_SENT:
             nxt = v[0]
             continue
         if t == T_RCVD:
-            if v[0] == 1:
+            if v[0] == 1 and a:
                 rcvd.add(a[0])
             continue
         if t == T_SENDACK:
@@ -526,120 +637,158 @@ def oracle(case, obs):
         if t == T_CELL:
             cells += 1
             continue
-        if t in (T_ADV, T_DUMP):
+        if t not in MEASURED:
             continue
+        m = split_measured(v)
+        if m is None:
+            return "new: op %d (%s): observation %s too short" % (k, describe(t, a), v)
+        w, mb, _mk = m
+        why = shape_problem(t, w)
+        if why:
+            return "new: op %d (%s): %s" % (k, describe(t, a), why)
         probe = t >= 100
-        state = nxt + (max(rcvd) + 1 if rcvd else 0) + cells + issued + (seen_hi - roff + 1) + created[0] + created[1] + 8
-        if v[0] == -77:
+        state = nxt + (max(rcvd) + 1 if rcvd else 0) + cells + issued + (max(have) - tomb + 1) + created[0] + created[1] + 8
+        if w[0] == -77:
             return "F7: op %d (%s) panicked" % (k, describe(t, a)) if is_negative_ack(t, a) else "new: op %d (%s) panicked" % (k, describe(t, a))
         fb = len(a[0]) if t in (T_FRAME, P_FRAME) else 8
-        killed = v[0] == -5
-        mb = v[-3] if len(v) >= 3 else 0
-        # ---- what the frame is
+        killed = w[0] == -5
+        # ---- what the operation is
         if t in (T_FRAME, P_FRAME):
             kind, f = decode(a[0])
         elif t == P_PN:
             kind, f = "pn", {"w": a[0], "x": a[1]}
         else:
             kind, f = "setlimit", {"n": a[0]}
-        # ---- prescribed errors
-        if kind == "ack":
-            pns = ack_pns(f)
-            if pns is None:
-                if killed or v[:2] != [0, E_FRAME]:
-                    return "F7: op %d ACK largest=%d first=%d ranges=%s computes a negative packet number: got %s, required FRAME_ENCODING_ERROR" % (k, f["largest"], f["first"], f["ranges"][:3], v[:5])
-                closed = not probe
-                continue
-            cov = sum(hi - lo + 1 for lo, hi in pns)
-            if f["largest"] >= nxt:
-                if killed:
-                    return "F22: op %d ACK largest=%d >= next unsent %d covering %d numbers was iterated until the resource limit" % (k, f["largest"], nxt, cov)
-                if v[0] != 1 or v[1] != E_PV:
-                    return "F8: op %d ACK largest=%d >= next unsent %d: got %s, required PROTOCOL_VIOLATION" % (k, f["largest"], nxt, v[:5])
-                if v[2] != 0 or v[3] != 0:
-                    return "F22: op %d ACK largest=%d >= next unsent %d was acted on before it was rejected (controller iterations %d)" % (k, f["largest"], nxt, v[2])
-                closed = not probe
-                continue
-            if killed or v[0] != 1 or v[1] != 0:
-                return "new: op %d valid ACK %s rejected: %s" % (k, pns[:3], v[:5])
-            if v[2] > cov or v[3] != cov:
-                return "new: op %d valid ACK covering %d numbers: controller iterations %d collected %d" % (k, cov, v[2], v[3])
-        elif kind == "pn":
-            if killed or (v[0] == 0 and mb > bound_bytes(fb, state)):
-                exp = (max(rcvd) + 1) if rcvd else 0
-                return "F9: op %d packet number (width %d, %d) after %d received: %s bytes allocated for %s new records" % (k, f["w"], f["x"], exp, "limit hit," if killed else mb, "?" if killed else v[2])
-        elif kind == "newcid":
-            over = f["seq"] - f["rpt"] > limit
-            if over:
-                if killed or v[:2] != [2, E_CIDLIMIT]:
-                    return "new: op %d NEW_CONNECTION_ID seq=%d rpt=%d with limit %d: got %s, required CONNECTION_ID_LIMIT_ERROR" % (k, f["seq"], f["rpt"], limit, v[:3])
-                closed = not probe
-                continue
-            if killed or mb > bound_bytes(fb, state) or (v[0] == 2 and v[2] > state + limit):
-                return "F10: op %d NEW_CONNECTION_ID seq=%d rpt=%d (highest seen %d, retired below %d): %s" % (
-                    k, f["seq"], f["rpt"], seen_hi, roff, "resource limit hit" if killed else "%d RETIRE frames, %d bytes" % (v[2], mb))
-            if v[0] == 2 and v[1] == 0 and not probe:
-                seen_hi = max(seen_hi, f["seq"])
-                roff = max(roff, f["rpt"])
+        # ---- the prescribed errors, then the cost
+        msg = judge(k, kind, f, w, killed, mb, fb, state, probe, limit, msb, msu, nxt, rcvd, have, tomb, issued, lset)
+        if msg:
+            return msg
+        # ---- follow the state (in-process operations only; a probe runs in a child)
+        if probe or killed:
+            continue
+        if failed(t, w):
+            closed = True
+            continue
+        if kind == "newcid" and f["seq"] >= tomb:
+            tomb = max(tomb, f["rpt"])
+            have = {x for x in have | {f["seq"]} if x >= tomb}
         elif kind == "retire":
-            if f["seq"] >= issued:
-                if killed or v[0] != 3 or v[1] == 0:
-                    return "new: op %d RETIRE_CONNECTION_ID of unissued %d (issued %d) accepted: %s" % (k, f["seq"], issued, v[:3])
-                if v[1] != E_PV:
-                    return "F55: op %d RETIRE_CONNECTION_ID of unissued %d: error kind %d, RFC 9000 19.16 requires PROTOCOL_VIOLATION" % (k, f["seq"], v[1])
-                closed = not probe
-                continue
-            if killed or v[1] != 0:
-                return "new: op %d RETIRE_CONNECTION_ID %d (issued %d) failed: %s" % (k, f["seq"], issued, v[:3])
-            if not probe:
-                issued += v[2]
-        elif kind == "setlimit":
-            if lset:
-                continue
-            n = f["n"]
-            if n < 2:
-                if killed or v[0] != E_TP:
-                    return "new: op %d active_connection_id_limit %d: got %s, required TRANSPORT_PARAMETER_ERROR" % (k, n, v[:2])
-                closed = not probe
-                continue
-            if killed or mb > bound_bytes(fb, state) or v[1] > state + 8:
-                return "F11: op %d peer active_connection_id_limit %d: %s" % (k, n, "resource limit hit" if killed else "%d NEW_CONNECTION_ID frames, %d bytes" % (v[1], mb))
-            if not probe:
-                lset = True
-                issued = max(issued, n)
-        elif kind == "maxstreams":
-            if f["v"] > (1 << 60):
-                if killed or v[:2] != [0, E_FRAME]:
-                    return "new: op %d MAX_STREAMS %d: got %s, required FRAME_ENCODING_ERROR" % (k, f["v"], v[:3])
-                closed = not probe
-                continue
-            if killed or (v[0] == 4 and v[1] != 0):
-                return "new: op %d MAX_STREAMS %d failed: %s" % (k, f["v"], v[:3])
+            issued += w[2]
+        elif kind == "setlimit" and not lset:
+            lset = True
+            issued = max(issued, f["n"])
         elif kind in ("stream", "reset", "stop", "maxsd"):
             sid = f["sid"]
-            peer = sid % 2 == 0
             d = (sid >> 1) & 1
-            idx = sid >> 2
-            mx = msu if d else msb
-            if peer and idx > mx and not (kind in ("stop", "maxsd") and d == 1):
-                if killed or v[1] != E_STREAMLIMIT:
-                    return "new: op %d %s on stream %d (index %d, limit %d): got %s, required STREAM_LIMIT_ERROR" % (k, kind, sid, idx, mx, v[:3])
-                closed = not probe
-                continue
-            if killed or mb > bound_bytes(fb, state + msb + msu):
-                return "new: op %d %s on stream %d: %s bytes allocated (limits %d/%d)" % (k, kind, sid, "limit hit," if killed else mb, msb, msu)
-            if v[1] != 0:
-                closed = not probe
-            elif not probe and peer and idx < mx + 1:
-                created[d] = max(created[d], idx + 1)
-            continue
-        # ---- generic cost statement for whatever was accepted
+            if sid % 2 == 0 and (sid >> 2) < (msu if d else msb) + 1:
+                created[d] = max(created[d], (sid >> 2) + 1)
+    return None
+
+
+def judge(k, kind, f, w, killed, mb, fb, state, probe, limit, msb, msu, nxt, rcvd, have, tomb, issued, lset):
+    """the property for ONE operation whose observation has the shape `shape_problem` accepted"""
+    if kind == "ack":
+        pns = ack_pns(f)
+        if pns is None:
+            if killed or w[:2] != [0, E_FRAME]:
+                return "F7: op %d ACK largest=%d first=%d ranges=%s computes a negative packet number: got %s, required FRAME_ENCODING_ERROR" % (k, f["largest"], f["first"], f["ranges"][:3], w[:5])
+            return None
+        cov = sum(hi - lo + 1 for lo, hi in pns)
+        if f["largest"] >= nxt:
+            if killed:
+                return "F22: op %d ACK largest=%d >= next unsent %d covering %d numbers was iterated until the resource limit" % (k, f["largest"], nxt, cov)
+            if w[0] != 1 or w[1] != E_PV:
+                return "F8: op %d ACK largest=%d >= next unsent %d: got %s, required PROTOCOL_VIOLATION" % (k, f["largest"], nxt, w[:5])
+            if w[2] != 0 or w[3] != 0:
+                return "F22: op %d ACK largest=%d >= next unsent %d was acted on before it was rejected (controller iterations %d)" % (k, f["largest"], nxt, w[2])
+            return None
+        if killed or w[0] != 1 or w[1] != 0:
+            return "new: op %d valid ACK %s rejected: %s" % (k, pns[:3], w[:5])
+        if w[2] > cov or w[3] != cov:
+            return "new: op %d valid ACK covering %d numbers: controller iterations %d collected %d" % (k, cov, w[2], w[3])
+    elif kind == "pn":
+        if killed or (w[0] == 0 and mb > bound_bytes(fb, state)):
+            exp = (max(rcvd) + 1) if rcvd else 0
+            return "F9: op %d packet number (width %d, %d) after %d received: %s bytes allocated for %s new records" % (k, f["w"], f["x"], exp, "limit hit," if killed else mb, "?" if killed else w[2])
+        return None
+    elif kind == "newcid":
+        seq, rpt = f["seq"], f["rpt"]
+        where = "NEW_CONNECTION_ID seq=%d rpt=%d (stored %s, retired below %d, limit %d)" % (seq, rpt, sorted(have)[-4:], tomb, limit)
+        if rpt > seq:
+            if killed or w[:2] != [0, E_FRAME]:
+                return "new: op %d %s with retire_prior_to > sequence: got %s, required FRAME_ENCODING_ERROR" % (k, where, w[:3])
+            return None
         if killed:
-            return "new: op %d (%s) hit the resource limit" % (k, describe(t, a))
-        if t in MEASURED and len(v) >= 3 and mb > bound_bytes(fb, state + (msb + msu if kind in ("stream", "reset", "stop", "maxsd") else 0)):
-            return "new: op %d (%s): %d bytes allocated, bound %d" % (k, describe(t, a), mb, bound_bytes(fb, state))
-        if not probe and len(v) >= 2 and v[0] in (0,) and t == T_FRAME:
-            closed = True
+            return "F10: op %d %s: resource limit hit" % (k, where)
+        if w[0] != 2:
+            return "new: op %d %s answered as class %d" % (k, where, w[0])
+        if seq < tomb:
+            # already retired: the frame is a late duplicate and must be ignored
+            if w[1] != 0 or w[2] != 0:
+                return "new: op %d %s names a retired sequence number: got %s, required to be ignored" % (k, where, w[:3])
+        else:
+            # RFC 9000 5.1.1: add the ID, retire everything below retire_prior_to, then count the active IDs
+            t2 = max(tomb, rpt)
+            active = len({x for x in have | {seq} if x >= t2})
+            want = E_CIDLIMIT if active > limit else 0
+            if w[1] != want:
+                return "new: op %d %s leaves %d active connection IDs: got %s, required %s" % (k, where, active, KIND_NAME.get(w[1], w[1]), KIND_NAME[want])
+        if mb > bound_bytes(fb, state) or w[2] > state + limit:
+            return "F10: op %d %s: %d RETIRE_CONNECTION_ID frames, %d bytes allocated (answer: %s)" % (k, where, w[2], mb, KIND_NAME.get(w[1], w[1]))
+        return None
+    elif kind == "retire":
+        if killed or w[0] != 3:
+            return "new: op %d RETIRE_CONNECTION_ID %d: %s" % (k, f["seq"], "resource limit hit" if killed else "answered as class %d" % w[0])
+        if f["seq"] >= issued:
+            if w[1] == 0:
+                return "new: op %d RETIRE_CONNECTION_ID of unissued %d (issued %d) accepted: %s" % (k, f["seq"], issued, w[:3])
+            if w[1] != E_PV:
+                return "F55: op %d RETIRE_CONNECTION_ID of unissued %d: error kind %d, RFC 9000 19.16 requires PROTOCOL_VIOLATION" % (k, f["seq"], w[1])
+            return None
+        if w[1] != 0:
+            return "new: op %d RETIRE_CONNECTION_ID %d (issued %d) failed: %s" % (k, f["seq"], issued, w[:3])
+    elif kind == "setlimit":
+        if lset:
+            return None
+        n = f["n"]
+        if n < 2:
+            if killed or w[0] != E_TP:
+                return "new: op %d active_connection_id_limit %d: got %s, required TRANSPORT_PARAMETER_ERROR" % (k, n, w[:2])
+            return None
+        if killed or mb > bound_bytes(fb, state) or w[1] > state + 8:
+            return "F11: op %d peer active_connection_id_limit %d: %s" % (k, n, "resource limit hit" if killed else "%d NEW_CONNECTION_ID frames, %d bytes" % (w[1], mb))
+        if w[0] != 0:
+            return "new: op %d active_connection_id_limit %d rejected: %s" % (k, n, w[:2])
+        return None
+    elif kind == "maxstreams":
+        if f["v"] > (1 << 60):
+            if killed or w[:2] != [0, E_FRAME]:
+                return "new: op %d MAX_STREAMS %d: got %s, required FRAME_ENCODING_ERROR" % (k, f["v"], w[:3])
+            return None
+        if killed or (w[0] == 4 and w[1] != 0):
+            return "new: op %d MAX_STREAMS %d failed: %s" % (k, f["v"], w[:3])
+    elif kind in ("stream", "reset", "stop", "maxsd"):
+        sid = f["sid"]
+        peer = sid % 2 == 0
+        d = (sid >> 1) & 1
+        idx = sid >> 2
+        mx = msu if d else msb
+        if killed:
+            return "new: op %d %s on stream %d: resource limit hit (limits %d/%d)" % (k, kind, sid, msb, msu)
+        if w[0] not in (4, 5):
+            return "new: op %d %s on stream %d answered as class %d" % (k, kind, sid, w[0])
+        if peer and idx > mx and not (kind in ("stop", "maxsd") and d == 1):
+            if w[1] != E_STREAMLIMIT:
+                return "new: op %d %s on stream %d (index %d, limit %d): got %s, required STREAM_LIMIT_ERROR" % (k, kind, sid, idx, mx, w[:3])
+            return None
+        if mb > bound_bytes(fb, state + msb + msu):
+            return "new: op %d %s on stream %d: %d bytes allocated (limits %d/%d)" % (k, kind, sid, mb, msb, msu)
+        return None
+    # ---- generic cost statement for whatever was accepted
+    if killed:
+        return "new: op %d (%s %s) hit the resource limit" % (k, kind, f)
+    if mb > bound_bytes(fb, state):
+        return "new: op %d (%s %s): %d bytes allocated, bound %d" % (k, kind, f, mb, bound_bytes(fb, state))
     return None
 
 
@@ -726,7 +875,7 @@ def mutate(rng, case, j):
 
 STREAMS = [{
     "name": "handlers", "pkg": "h4", "bin": "impl_handlers",
-    "gen": gen, "oracle": oracle, "nontrivial": nontrivial, "hist": hist, "mutate": mutate, "classify": classify,
+    "gen": gen, "oracle": oracle, "nontrivial": nontrivial, "hist": hist, "mutate": mutate, "classify": classify, "impl_run": impl_run,
     "profiles": ("debug",), "profiles_thorough": ("debug",),
     "rule": RULE,
 }]
